@@ -862,7 +862,7 @@ func Compare(refTree *Tree, compTrees <-chan Trees, tips, comparetreeidentical b
 					if inerr = treeV.Tree.ReinitIndexes(); inerr == nil {
 						edges2 := treeV.Tree.Edges()
 						VerifYield()
-						if inerr = refTree.CompareTipIndexes(treeV.Tree); err == nil {
+						if inerr = refTree.CompareTipIndexes(treeV.Tree); inerr == nil {
 							sametree = true
 							for _, e2 := range edges2 {
 								ok := true
@@ -982,7 +982,7 @@ func CompareWeighted(refTree *Tree, compTrees <-chan Trees, tips, comparetreeide
 
 						VerifYield()
 						// The trees have the same tips, we can compare them
-						if inerr = refTree.CompareTipIndexes(treeV.Tree); err == nil {
+						if inerr = refTree.CompareTipIndexes(treeV.Tree); inerr == nil {
 							sametree = true
 
 							// Check compared edges against reference index
